@@ -232,3 +232,46 @@ func VH_C03_replay_filter_step() { VH_C14_step_preserves_inv() }
 //verif:bounds as VH_C14_check_iff_spec
 //verif:cover check-true;check-false
 func VH_C03_replay_filter_check_iff_spec() { VH_C14_check_iff_spec() }
+
+// C15 leans on the same filter ("... and passes the replay filter; replayed
+// packets never redirect traffic"): the inductive step is registered there too.
+//
+//verif:prop C15
+//verif:bounds as VH_C14_step_preserves_inv
+//verif:unwind 12
+//verif:cover accepted;rejected
+func VH_C15_replay_filter_step() { VH_C14_step_preserves_inv() }
+
+//verif:prop C15
+//verif:bounds as VH_C14_check_iff_spec
+//verif:cover check-true;check-false
+func VH_C15_replay_filter_check_iff_spec() { VH_C14_check_iff_spec() }
+
+type c14ByteBuf struct{ b []byte }
+
+func (w *c14ByteBuf) WriteByte(c byte) error {
+	w.b = append(w.b, c)
+	return nil
+}
+
+// The filter is fed the counter the packet carries: the header's 8 counter
+// bytes decode to their 64-bit big-endian value (injective), and the sender's
+// encoding decodes back to the counter it sent.
+//
+//verif:prop C14
+//verif:bounds 8 symbolic header bytes; symbolic 64-bit send counter
+//verif:cover decoded
+func VH_C14_filter_is_fed_the_packets_counter() {
+	var ss SessionState
+	b := verifBytes("counter-bytes", 8)
+	want := uint64(b[0])<<56 | uint64(b[1])<<48 | uint64(b[2])<<40 | uint64(b[3])<<32 | uint64(b[4])<<24 | uint64(b[5])<<16 | uint64(b[6])<<8 | uint64(b[7])
+	verifAssert(ss.readCounter(b) == want, "C14: the counter checked and recorded by the filter is the 64-bit big-endian value of the header's counter field")
+	ss.count = verifU64("send-counter")
+	var w c14ByteBuf
+	ss.writeCounter(&w)
+	verifAssert(len(w.b) == 8, "C14: the counter is sent as 8 bytes")
+	if len(w.b) == 8 {
+		verifAssert(ss.readCounter(w.b) == ss.count, "C14: a sent counter is decoded to the same value by the receiver")
+	}
+	verifCover("decoded")
+}
